@@ -8,17 +8,31 @@ from ..exceptions import SecurityError
 from ..urls import uri_to_iri
 
 
-def _strip_port(host: str) -> str:
+def _strip_port(host: str) -> str | None:
+    """Return the host name without the port. Return ``None`` if the name is
+    followed by anything but a port, as in ``name:@other.example``.
+    """
     if host.startswith("["):
         # An IPv6 literal contains colons, the port comes after the bracket.
         name, sep, rest = host.partition("]")
 
-        if sep and (not rest or rest.startswith(":")):
-            return f"{name}]"
+        if not sep:
+            return host
 
-        return host
+        name = f"{name}]"
+    else:
+        name, sep, rest = host.partition(":")
+        rest = f"{sep}{rest}"
 
-    return host.partition(":")[0]
+    if not rest:
+        return name
+
+    port = rest[1:]
+
+    if rest[0] == ":" and (not port or (port.isascii() and port.isdigit())):
+        return name
+
+    return None
 
 
 def host_is_trusted(hostname: str | None, trusted_list: t.Iterable[str]) -> bool:
@@ -33,8 +47,13 @@ def host_is_trusted(hostname: str | None, trusted_list: t.Iterable[str]) -> bool
     if not hostname:
         return False
 
+    hostname = _strip_port(hostname)
+
+    if hostname is None:
+        return False
+
     try:
-        hostname = _strip_port(hostname).encode("idna").decode("ascii")
+        hostname = hostname.encode("idna").decode("ascii")
     except UnicodeError:
         return False
 
@@ -48,8 +67,13 @@ def host_is_trusted(hostname: str | None, trusted_list: t.Iterable[str]) -> bool
         else:
             suffix_match = False
 
+        ref_name = _strip_port(ref)
+
+        if ref_name is None:
+            return False
+
         try:
-            ref = _strip_port(ref).encode("idna").decode("ascii")
+            ref = ref_name.encode("idna").decode("ascii")
         except UnicodeError:
             return False
 
